@@ -616,6 +616,8 @@ func zzC02bResend() {
 		u.sent.Store(u.ctx, u.ID, seq, DataPointGroups{&DataPointGroup{DataID: id, DataPoints: DataPoints{dp}}})
 	}
 	vf.Known("KF-C02-default-storage-drops-payload", anyPayload)
+	// arbitrary ack history before the disconnect (acks are per chunk, not cumulative)
+	u.maxSequenceNumberInReceivedUpstreamChunkResults = vf.U32("max.acked.before")
 	w.st.stored = nil
 	w.log.ev = nil
 
